@@ -21,13 +21,15 @@ for f in sys.argv[1:]:
         e.setdefault("first", v)
         e["now"] = v
 json.dump(res, open(rj, "w"), indent=1, sort_keys=True)
+fj = os.path.join(ROOT, "seeded", "fired.json")
+fired = json.load(open(fj)) if os.path.exists(fj) else {}
 rows = []
 for d in sorted(glob.glob(os.path.join(ROOT, "seeded", "C*_[a-z]"))):
     i = os.path.basename(d)
     try: m = json.load(open(os.path.join(d, "meta.json")))
     except Exception: continue
     e = res.get(i, {})
-    rows.append(f"| {i} | {m.get('property','')} | {str(m.get('summary','')).replace('|','/')[:160]} | {str(m.get('needs','')).replace('|','/')[:200]} | {e.get('first','-')} | {e.get('now','-')} |")
+    rows.append(f"| {i} | {m.get('property','')} | {str(m.get('summary','')).replace('|','/')[:160]} | {str(m.get('needs','')).replace('|','/')[:200]} | {e.get('first','-')} | {e.get('now','-')} | {str(fired.get(i,'-')).replace('|','/')[:260]} |")
 notes = ""
 nf = os.path.join(ROOT, "seeded", "NOTES.md")
 if os.path.exists(nf): notes = open(nf).read()
@@ -36,9 +38,11 @@ open(os.path.join(ROOT, "seeded", "README.md"), "w").write(f"""# Seeded changes 
 Each directory holds `patch.diff` (applies to /repo HEAD at the time of the last rebase), `demo.py` (PASS on the
 unchanged tree, FAIL on the changed one) and `meta.json`.  `tools/run_seeded.sh [--scratch] <id>` applies the patch,
 runs the property's check and undoes the patch.  *first* = what the check said when the change was first tried,
-*now* = latest run (after the check was strengthened where it had missed).  `results.json` is the machine-readable form.
+*now* = latest run (after the check was strengthened where it had missed); the last column is extracted from the log
+of the last run (`seeded/fired.json`): how many proof / regenerated obligations still checked, which tie broke, and the
+first failing input's description.  `results.json` is the machine-readable form.
 
-| id | property | change | needs to manifest | first | now |
-|---|---|---|---|---|---|
+| id | property | change | needs to manifest | first | now | what fired in the last run (proof obligation / tie / oracle input) |
+|---|---|---|---|---|---|---|
 """ + "\n".join(rows) + "\n\n" + notes)
 print(len(rows), "rows")
